@@ -33,6 +33,9 @@ PROPS = {
     "C11": {"modules": ["c04_schedule"], "level": "other", "bounded": []},
     "C07": {"modules": ["c07_order", "c04_schedule"], "level": "other", "bounded": []},
     "C09": {"modules": ["c07_order"], "level": "other", "bounded": []},
+    "C16": {"modules": ["c16_scenarios"], "level": "other", "bounded": []},
+    "C12": {"modules": ["c16_scenarios"], "level": "other", "bounded": []},
+    "C14": {"modules": ["c05_limits", "c02_calendar", "c04_schedule"], "level": "other", "bounded": []},
     "C10": {
         "modules": ["c10_containers", "c01_ledger"],
         "level": "other",
